@@ -571,7 +571,7 @@ def run(ck):
             "excused_by_flush_finding": an.excused, "runs_with_busy_flush": an.busyflush_runs,
             "aux_observations (not clauses of C06)": dict(an.aux), "witnesses_reproduce_on": witnesses,
             "stream_seconds": round(time.time() - t_streams, 1)}
-        ck.cov["exhaustive"] = ("rig, every assignment of <= k requests (read|write × line × start offset) to 2 and 3 cores on line sets {0},{0,64},{0,128 (MVP-8)}, "
+        ck.cov["exhaustive_note"] = ("rig, every assignment of <= k requests (read|write × line × start offset) to 2 and 3 cores on line sets {0},{0,64},{0,128 (MVP-8)}, "
                                 "modulo line/time-shift symmetry: quick k=3 (≈ 4·10^4 runs), thorough k=4 (≈ 9.6·10^5 runs), offsets {0,2,310,313}; "
                                 "every run judged by the Go side, every 5th (quick) / 97th (thorough) run also rendered and judged/replayed by Lean")
         # ---- verdicts
